@@ -152,3 +152,12 @@ package api
 // can decode into
 //@ directive codec Pin PinPath PinInfo GlobalPinInfo ID IPFSID Version ConnectGraph Metric Alert Error NodeWithMeta IPFSRepoStat IPFSRepoGC RepoGC GlobalRepoGC AddedOutput AddParams
 //@   property C08
+
+// ---- text / JSON form of the tracker status: every status has a name of its own ----
+// (String, MarshalJSON, UnmarshalJSON and the filter parser all go through this one table and its reverse)
+//@ lemma every_status_has_a_name: haskey(trackerStatusString, TrackerStatusUndefined) && haskey(trackerStatusString, TrackerStatusClusterError) && haskey(trackerStatusString, TrackerStatusPinError) && haskey(trackerStatusString, TrackerStatusUnpinError) && haskey(trackerStatusString, TrackerStatusError) && haskey(trackerStatusString, TrackerStatusPinned) && haskey(trackerStatusString, TrackerStatusPinning) && haskey(trackerStatusString, TrackerStatusUnpinning) && haskey(trackerStatusString, TrackerStatusUnpinned) && haskey(trackerStatusString, TrackerStatusRemote) && haskey(trackerStatusString, TrackerStatusPinQueued) && haskey(trackerStatusString, TrackerStatusUnpinQueued) && haskey(trackerStatusString, TrackerStatusQueued) && haskey(trackerStatusString, TrackerStatusSharded) && haskey(trackerStatusString, TrackerStatusUnexpectedlyUnpinned)
+//@   property C08 C06
+//@ lemma status_names_are_distinct: forall a TrackerStatus, b TrackerStatus :: haskey(trackerStatusString, a) && haskey(trackerStatusString, b) && a != b ==> trackerStatusString[a] != trackerStatusString[b]
+//@   property C08 C06
+//@ lemma status_names_are_not_empty: forall a TrackerStatus :: haskey(trackerStatusString, a) ==> trackerStatusString[a] != ""
+//@   property C08 C06
